@@ -40,7 +40,7 @@ class ModelParse:
         self.nid += 1
         i = self.nid
         text = node.text or ''
-        st = text.strip()
+        st = text.strip(' \t\n\r')
         f, z = oracle(st)
         r = self.drv.ask('parsee %d %d %s %s %s' % (i, ix('C:' + cname), 's:' + hx(text) if False else (hx(text) or '-'), f, z))
         if r != 'ok':
@@ -120,7 +120,7 @@ def compare_file(drv, path):
 # ---------------------------------------------------------------------------- infoset comparison (oracle of C08/C09)
 def infoset(elem, numeric_loose=True):
     def norm_text(t):
-        t = (t or '').strip()
+        t = (t or '').strip(' \t\n\r')      # XML white space only: anything else is content
         return t
     def norm_num(s):
         try:
